@@ -175,6 +175,12 @@ func ZZ_C14_run_on_range() {
 	end := zzc14Key("end")
 	conc := 1 + zzChoice("concurrency", 2)
 	failAt := zzChoice("fail.at", 4) // 0 = never, k = the k-th handler call fails
+	// what the failing call returns: an error of its own, or the cancellation of its context (the
+	// caller gave up, a deadline passed): every kind of failure must make the run fail
+	failErr := errors.New("zz: handler failure")
+	if failAt != 0 && zzChoice("fail.kind", 2) == 1 {
+		failErr = context.Canceled
+	}
 	var mu sync.Mutex
 	var got []kv.KeyRange
 	calls, failed := 0, false
@@ -184,7 +190,7 @@ func ZZ_C14_run_on_range() {
 		calls++
 		if calls == failAt {
 			failed = true
-			return TaskStat{}, errors.New("zz: handler failure")
+			return TaskStat{}, failErr
 		}
 		got = append(got, r)
 		return TaskStat{CompletedRegions: 1}, nil
